@@ -57,8 +57,20 @@ def corelang_spec(variant='core'):
     return copy.deepcopy(_corelang[variant])
 
 
+LARGE_SHARE = 0.04
+
+
 def gen_case(rng, lcfg=None, mcfg=None, corelang_share=0.0):
-    """a JSON-serialisable case: spec + abstract model"""
+    """a JSON-serialisable case: spec + abstract model; LARGE_SHARE of the cases come from the large stratum
+    (10-16 asset types with an inheritance chain of depth 8, 12-40 assets, fields with up to 12 members, up to 12
+    attackers, very long / padded / normalising names, ids around 2**31 and 2**63, defense values next to 0 and 1)"""
+    if rng.random() < LARGE_SHARE:
+        lcfg = copy.copy(lcfg) if lcfg is not None else Cfg()
+        mcfg = copy.copy(mcfg) if mcfg is not None else MCfg()
+        lcfg.large = True
+        mcfg.large = True
+        if rng.random() < 0.5:
+            mcfg.explicit_ids = 1.0
     if corelang_share and rng.random() < corelang_share:
         spec = corelang_spec(rng.choice(['core', 'core', 'union']))
         src = 'corelang'
